@@ -129,8 +129,8 @@ Proof.
   { intros y Hy. unfold executing in Hy. apply filter_In in Hy. apply includes_range. apply Hy. }
   destruct (Nat.ltb 1 (length (executing k w))) eqn:El.
   2:{ apply Nat.ltb_ge in El. rewrite Hc in *. destruct r; [|cbn in El; lia]. destruct Hx as [<-|[]]. unfold Qcle. apply Qle_refl. }
-  unfold sort_exec in Hc. cbn [sort_exec_from app] in Hc.
-  assert (Hc' : sort_one (executing k w) k = o :: r) by (destruct (Nat.eqb _ _); exact Hc). clear Hc.
+  rewrite (sort_exec_single _ k (executing_included k w)) in Hc.
+  assert (Hc' : sort_one (executing k w) k = o :: r) by exact Hc. clear Hc.
   assert (Hfi : filter (includes k) (executing k w) = executing k w) by apply filter_idem.
   unfold sort_one in Hc'. cbv zeta in Hc'. rewrite !Hfi in Hc'. clear Hfi.
   destruct (executing k w) as [|e1 [|e2 ex]] eqn:Eex; [discriminate El|discriminate El|]. rewrite <- Eex in *. clear El e1 e2 ex Eex.
